@@ -549,8 +549,8 @@ def _nf_cases(draw):
 SUBS = [
     Sub("metricframe", check_metricframe, strategy=_mf_cases, quick=700, thorough=20000, shards=8, floors={"nt": 0.4}),
     Sub("named_metrics", check_named, strategy=_named_cases, quick=250, thorough=8000, shards=8, floors={"nt": 0.4}),
-    Sub("reductions_data", check_reduction, strategy=_red_cases, quick=800, thorough=20000, shards=16, floors={"nt": 0.5}),
-    Sub("threshold_optimizer", check_to, strategy=_to_cases, quick=350, thorough=8000, shards=8, floors={"nt": 0.329}),
-    Sub("parameters", check_params, strategy=_param_cases, quick=300, thorough=3000, shards=4, floors={"nt": 0.55}),
-    Sub("not_fitted", check_notfitted, strategy=_nf_cases, quick=100, thorough=1000, shards=4, floors={"nt": 0.55}),
+    Sub("reductions_data", check_reduction, strategy=_red_cases, quick=800, thorough=20000, shards=16, floors={"nt": 0.414}),
+    Sub("threshold_optimizer", check_to, strategy=_to_cases, quick=350, thorough=8000, shards=8, floors={"nt": 0.322}),
+    Sub("parameters", check_params, strategy=_param_cases, quick=300, thorough=3000, shards=4, floors={"nt": 0.45}),
+    Sub("not_fitted", check_notfitted, strategy=_nf_cases, quick=100, thorough=1000, shards=4, floors={"nt": 0.45}),
 ]
